@@ -178,6 +178,29 @@ CLAIMED = {
               'non-replaying counterexamples); time, date-time, %s, %Z formats and shipped locales not yet covered'),
         technique='CBMC bounded model checking of format/parse round trips per enumerated format',
         design='3/C09'),
+    'C18': dict(
+        text=('Bounded model checking of src/prchunk.c (prchunk_fill, prchunk_getline, prchunk_haslinep) on scaled '
+              'window/chunk constants: the stream bytes (over LF, CR and two letters) and the size of every read() result '
+              'are symbolic, so every way of cutting the stream into reads is covered; the lines handed to the consumer '
+              'loop equal the reference split of the stream (no line lost, duplicated, split or merged; CR LF stripped; '
+              'unterminated last line delivered), with cbmc bounds and pointer checks on the buffer.'),
+        note=('window 2x4 / 3x3 bytes, chunk 2..3, streams <= 4 (quick) / 5 (thorough) bytes through the DATEUTILS_VERIF hook; '
+              'the real constants (16384 lines, 16 MiB, 4096) are outside, as are the copy-through of the per-tool '
+              'proc_line functions and read() errors; two defects found and fixed'),
+        technique='CBMC bounded model checking of the chunk reader with symbolic stream and symbolic read schedule',
+        design='3/C18'),
+    'C15': dict(
+        text=('Bounded model checking of the iteration core of src/dseq.c (__get_dir, __seq_this, __seq_next, '
+              '__in_range_p, __fixup_fst, skipp, date_add) called as main() calls it: day/week steps over day numbers '
+              'with every skip set and --compute-from-last, month/year steps over ymd dates, and time-of-day bounds; '
+              'the emitted values equal the reference progression and the run ends inside the bound; increments that '
+              'cannot move the value must be refused or give nothing. Assume-guarantee: dt_dtadd inside dseq.c is its '
+              'contract, which separate obligations prove equal to the real dt_dtadd on the domain used.'),
+        note=('weaker than driving main(): option/text parsing, promotion of mixed arguments and the switch to day counts '
+              'are not driven; <= 7 (quick) / 11..13 (thorough) members per sequence; date-time sequences, compound and '
+              'alternative increments, business days, equal time bounds outside'),
+        technique='CBMC bounded model checking of the dseq iteration core, assume-guarantee on dt_dtadd',
+        design='3/C15'),
 }
 
 NA = {}
@@ -214,7 +237,7 @@ def main():
             'guard': 'DATEUTILS_VERIF',
             'enable': 'harnesses are compiled with -DDATEUTILS_VERIF by goto-cc/gcc in a scratch copy of /repo',
             'baseline_off_cmd': 'make -C /repo -k check',
-            'source_commits': [],
+            'source_commits': ['33ccd95e459472dcdd0da112b1f03c9706e33e59'],
             'add_only': True,
         },
         'engines': [{'name': 'cbmc', 'path': 'vf/core.py',
